@@ -39,6 +39,7 @@ func checkC01(c *Ctx) {
 		"(R2) id/name tables (conditional constant propagation through switch / if / map-table / literal-slice loop / slices.Contains / table-index forms): README ids <-> NewXFromID/ID/Validate, every accepted name survives Validate->ID->FromID->Validate, JSON (un)marshal goes through the tables, the AEAD constructor per accepted cipher, Manifest JSON tags. " +
 		"(R3) spec constants; nonce layout (12 bytes = 7-byte prefix || big-endian uint32 || last flag) in whichever function(s) build the nonce; for each direction the HKDF call whose output is the HMAC key / the AEAD key has the README's info and salt (salt origin = origin of the nonce prefix) and the wrapped / unwrapped file key as input; HMAC-SHA-256; standard base64; fresh key 32 bytes, prefix 7; header = MACed message || base64(MAC) || LF (make+copy+Encode or append/AppendEncode/Join/Concat forms); pooled buffer >= largest fill limit. " +
 		"(R4) no AAD; the MACed message is scheme line, LF, manifest, LF (Encrypt: json.Marshal output; Decrypt: the bytes exactly as read, never re-encoded); the size limit the header writer enforces covers the complete header and does not exceed what the header reader scans. (R7) the bytes read past the header are copied out of the pooled buffer and put, in front of the rest, into the stream variable the segment phase reads. Every path from a header Read to the segment phase (helper results correlated with the caller's error tests) performs that push-back or has established count <= end-of-header; an early success return that skips both (e.g. when the last header Read carried io.EOF) is a violation; a guard around the push-back that is an opaque flag gives UNDECIDED. (R8) Manifest fields at the point of marshalling originate in the cipher that selects the AEAD, the prefix copied into the nonces, WrapKeyFn's result and algorithm argument, with the documented key-name precedence; Decrypt feeds UnwrapKeyFn / nonce / AEAD selection from the manifest's fields; the signed header is written before the segment loop. " +
+		"(R9) none of the places that overwrite a byte slice (clear, copy into, element store, the destination of io.ReadFull / rand.Read / subtle / binary / base64 / AEAD calls — also in deferred calls) can reach a slice returned by the caller's WrapKeyFn / UnwrapKeyFn: such a function may keep what it returns (a key cache), so wiping it breaks every later use of that key; working on a copy is fine (copies made by bytes.Clone / append / make+copy carry the origin of their content for the key-derivation rules). " +
 		"NOT decided: byte-for-byte round-trip equality; correctness of AEAD/HKDF/HMAC/JSON/base64 themselves (trusted libraries); the header line scanner's index arithmetic; consumer-side chunking (delegated to io.Pipe); behaviour on source errors and tampering (C02); that WrapKeyFn/UnwrapKeyFn are inverse. Shapes the engine cannot classify (state kept in a way that is neither SSA-, cell- nor field-resolvable, values stored through a pointer kept in an array element, reads through io.ReadFull or bufio, a nonce not built by copy+PutUint32+indexed store, a header written in several Write calls, tables computed by generics other than slices.Contains/Index) give UNDECIDED, never VIOLATION."
 	r.Assumptions = append(r.Assumptions,
 		"io.Reader implementations obey the documented contract (0 <= n <= len(p); n bytes valid even when err != nil; (0,nil) allowed)",
@@ -59,6 +60,7 @@ func checkC01(c *Ctx) {
 	r.Rule("C01.R3-spec-constants", "constants, nonce layout, HKDF/HMAC/base64 parameters equal the README's", 23)
 	r.Rule("C01.R4-siblings", "encrypt/decrypt siblings agree with the spec: nil AAD, MACed message = scheme line LF manifest LF (Decrypt: bytes as read), header size limit writer<=reader", 5)
 	r.Rule("C01.R7-header-pushback", "bytes read beyond the third header line are re-prepended to the stream Decrypt continues with", 3)
+	r.Rule("C01.R9-callback-memory", "the byte slices returned by the caller's WrapKeyFn / UnwrapKeyFn are never overwritten (clear, copy into, element store, library writers; also in deferred calls)", 2)
 	r.Rule("C01.R8-manifest-wiring", "manifest fields and the keys/cipher/nonce prefix used for the payload are the same values on both sides; key-name precedence", 10)
 
 	spec, err := c01ReadSpec(filepath.Join(p.Dir, c01Rel, "README.md"))
@@ -98,6 +100,16 @@ func checkC01(c *Ctx) {
 		}
 	}
 
+	c.Fixture("c01cb", func(fp *Prog, fr *Report) {
+		fx := &c01Ctx{c: c, r: fr, p: fp, fns: fp.Funcs}
+		for _, fn := range fp.Funcs {
+			if fn.Parent() != nil || fn.Name() == "init" || len(fn.Blocks) == 0 || fn.Signature.Recv() != nil {
+				continue
+			}
+			fx.callbackMemory(c01NewGraph(fp, fn), FuncName(fp, fn), "R9", []string{"UnwrapKeyFn"})
+		}
+		fr.Undecided = nil // helper functions without a callback call are not examples
+	})
 	c.Fixture("c01read", func(fp *Prog, fr *Report) {
 		fx := &c01Ctx{c: c, r: fr, p: fp, fns: fp.Funcs}
 		for _, fn := range fp.Funcs {
